@@ -985,7 +985,7 @@ fn sweep(args: &Args, rng: &mut Rng) -> Vec<(String, String, usize)> {
             let light = !thorough && ((op == "ipc" && id >= 2) || (op == "ocf" && id >= 3));
             for off in 0..n {
                 let vals: &[&str] = if thorough {
-                    &["set:ff", "set:00", "xor:01", "xor:80", "set:7f", "xor:10"]
+                    &["set:ff", "set:00", "xor:01", "xor:80"]
                 } else if light {
                     if off % 12 == id {
                         &["set:ff", "set:00", "xor:01"]
@@ -1011,7 +1011,7 @@ fn sweep(args: &Args, rng: &mut Rng) -> Vec<(String, String, usize)> {
             if op == "ipc" {
                 // flatbuffer scalars are 4/8-byte little-endian: inflate every aligned word
                 let vs64: &[i64] = if thorough { &[-1, i64::MAX, 1 << 40, n as i64, n as i64 * 8] } else { &[-1, i64::MAX, n as i64] };
-                for off in (0..n.saturating_sub(8)).step_by(if thorough { 4 } else if light { 24 } else { 8 }) {
+                for off in (0..n.saturating_sub(8)).step_by(if light { 24 } else { 8 }) {
                     for v in vs64 {
                         push(format!("le64:{}:{}", off, v), "inflate-i64", &mut out);
                     }
@@ -1182,7 +1182,7 @@ fn main() {
                 run_and_record(&mut w, &mut sink, line, &tags, n);
             }
         }
-        let n = n_cases(&args, 2000, 100000);
+        let n = n_cases(&args, 2000, 30000);
         for _ in 0..n {
             let (line, tags, len) = gen_unit(&mut rng);
             run_and_record(&mut w, &mut sink, line, &tags, len);
